@@ -277,6 +277,15 @@ func runC08(c *an.Ctx) {
 					return isCall && an.StaticCallee(&call.Call) == d.setTail && t.Of(call.Call.Args[3]) == actual
 				}, r)
 				c.Check(okT && t.ErrShape(errResult(r)) != "nil", "C08.d", "whole-store-partial-progress", "when deleting the whole store fails part-way the tail is moved to the reported progress and the error is returned", fn, r, "", nil)
+				// the range reaches the head, and the parallel driver (taken for long ranges) goes on above
+				// the height that failed — the other workers' removals are committed, the head among them —
+				// so "Tail and Head still resolve to stored headers" needs the head pointer looked after too
+				// on this path (finding F34: the clean tree moves only the tail)
+				okH := fl.MustPrecede(func(in ssa.Instruction) bool {
+					call, isCall := in.(*ssa.Call)
+					return isCall && an.StaticCallee(&call.Call) != nil && originOf(an.StaticCallee(&call.Call)) == d.setHead && fl.CanReach(rc, in)
+				}, r)
+				c.Check(okH, "C08.d", "whole-store-partial-head-reestablished", "when deleting the whole store fails part-way the head pointer is re-established as well: the parallel driver keeps removing above the height that failed, the head included", fn, r, "", nil)
 			}
 			continue
 		}
